@@ -17,6 +17,7 @@ P1 = {
     "lib/lib.go": "package lib\n\nimport (\n\t\"reflect\"\n\t\"sort\"\n\t\"strings\"\n)\n\ntype Item struct {\n\tName  string\n\tCount int\n\ttags  []string\n}\n\nvar registry = map[string]Item{\"one item literal\": {\"one\", 1, nil}, \"two item literal\": {\"two\", 2, nil}, \"three item literal\": {\"three\", 3, nil}}\n\nfunc Items(n int) []Item {\n\tvar out []Item\n\tfor _, it := range registry {\n\t\tout = append(out, it)\n\t}\n\tsort.Slice(out, func(i, j int) bool { return out[i].Count < out[j].Count })\n\treturn out[:n]\n}\n\nfunc Sum(items []Item) string {\n\tt := reflect.TypeOf(items).Elem().Name()\n\tfor _, it := range items {\n\t\tt += strings.ToUpper(it.Name)\n\t}\n\treturn t\n}\n\nfunc Generic[T any](xs []T) int { return len(xs) + int(AsmTwice(int64(len(xs)))) }\n\nfunc AsmTwice(x int64) int64\n",
     "lib/twice_amd64.s": "#include \"textflag.h\"\n\nTEXT ·AsmTwice(SB),NOSPLIT,$0-16\n\tMOVQ x+0(FP), AX\n\tADDQ AX, AX\n\tMOVQ AX, ret+8(FP)\n\tRET\n",
 }
+CF_EXTRA_IMPORTS = tuple(os.environ.get("VERIF_C03_CF_IMPORTS", "io").split(","))
 def cf_prog(params):
     keep = ("cfLoopSum", "cfNested", "cfIfChain", "cfSwitchFall", "cfRangeSlice", "cfFib", "cfTypeSwitch", "cfMapOps", "cfStringBuild", "cfBubble")
     cf = c11_corpus.CF
@@ -24,7 +25,12 @@ def cf_prog(params):
     for f in fns:
         if f not in keep:
             cf = re.sub(r"//garble:controlflow @P@\n(func (?:\([^)]*\) )?%s\b)" % f, r"\1", cf)
-    return {"support.go": c11_corpus.SUPPORT, "cf.go": cf.replace("@P@", params)}
+    # the rewritten file may need packages that the program reaches only indirectly; garble then takes their archives from the
+    # action graph's object directories, which exist only when the package is compiled in the same build (with a warm GOCACHE
+    # the build is refused: "could not import ... $WORK/bNNN/_pkg_.a"). Importing the usual suspects directly keeps this
+    # determinism comparison from being vacuous.
+    extra = "package main\n\nimport (\n" + "".join('\t_ "%s"\n' % x for x in CF_EXTRA_IMPORTS) + ")\n"
+    return {"support.go": c11_corpus.SUPPORT, "cf.go": cf.replace("@P@", params), "imports.go": extra}
 S = "-seed=AAAAAAAAAAA"
 def build(tag, files, modp, flags, env, srcdir=None, caches=None, p=None, tmp=None, pkg="."):
     root = os.path.join(g.root, tag)
@@ -97,17 +103,24 @@ for cname, fl, env in configs:
                 R.violation("binary-differs:" + name, "program %s flags %s: the %s build differs from the cold baseline build" % (pname, fl, name),
                             {"module/" + k: v for k, v in files.items()})
 # ---- control flow through the CLI: same seed, independent cold builds
-cfp = "junk_jumps=2 flatten_passes=1 flatten_hardening=xor,delegate_table trash_blocks=2"
 base_cf = ensure_base(g, [S], {"GARBLE_EXPERIMENTAL_CONTROLFLOW": "1"})
-def cfbuild(i):
-    return build("cf-%d" % i, cf_prog(cfp), "cfcorpus", [S], {"GARBLE_EXPERIMENTAL_CONTROLFLOW": "1"}, caches=compose(os.path.join(g.root, "caches-cf-%d" % i), [base_cf]))
-cfh = pmap(cfbuild, range(3 if tier == "quick" else 6), workers=3)
-builds += len(cfh)
-if any(h is None for h, _ in cfh):
-    log("control-flow CLI build rejected:", [e for h, e in cfh if h is None][:1])
-elif len(set(h for h, _ in cfh)) > 1:
-    R.violation("ctrlflow:cli-builds-differ", "GARBLE_EXPERIMENTAL_CONTROLFLOW=1 garble %s build [%s]: %d independent cold builds gave %d different binaries" % (S, cfp, len(cfh), len(set(h for h, _ in cfh))),
-                {"module/" + k: v for k, v in cf_prog(cfp).items()})
+cf_cli = {}
+# two parameter sets: without trash blocks (must be deterministic: any difference is a violation) and with them (the
+# trash generator's dependence on map order and on the global math/rand is a recorded finding; its builds are often refused)
+for cfname, cfp in (("no-trash", "junk_jumps=2 flatten_passes=1 flatten_hardening=xor,delegate_table"),
+                    ("trash", "junk_jumps=2 flatten_passes=1 flatten_hardening=xor,delegate_table trash_blocks=2")):
+    def cfbuild(i):
+        return build("cf-%s-%d" % (cfname, i), cf_prog(cfp), "cfcorpus", [S], {"GARBLE_EXPERIMENTAL_CONTROLFLOW": "1"}, caches=compose(os.path.join(g.root, "caches-cf-%s-%d" % (cfname, i)), [base_cf]))
+    cfh = pmap(cfbuild, range(3 if tier == "quick" else 6), workers=3)
+    builds += len(cfh)
+    if any(h is None for h, _ in cfh):
+        cf_cli[cfname] = "refused"
+        log("control-flow CLI build (%s) refused by garble:" % cfname, [e for h, e in cfh if h is None][:1])
+    else:
+        cf_cli[cfname] = "%d builds, %d distinct binaries" % (len(cfh), len(set(h for h, _ in cfh)))
+        if len(set(h for h, _ in cfh)) > 1:
+            R.violation("ctrlflow:cli-builds-differ" + ("" if cfname == "trash" else ":" + cfname), "GARBLE_EXPERIMENTAL_CONTROLFLOW=1 garble %s build [%s]: %d independent cold builds gave %d different binaries" % (S, cfp, len(cfh), len(set(h for h, _ in cfh))),
+                        {"module/" + k: v for k, v in cf_prog(cfp).items()})
 # ---- engine B: scripted map-iteration worlds. garble is rebuilt with a toolchain whose runtime takes every map hash seed and
 # iteration offset from a deterministic sequence selected by VERIF_MAPWORLD; each world is replayable. The binary must not
 # depend on the world.
@@ -173,5 +186,5 @@ R.finish({
             "a longer source directory, TMPDIR inside $PWD and on another file system; oracle sha256 equality with the baseline; control flow: independent cold CLI builds with one seed; unit seam: ctrlflow.Obfuscate under one scripted generator, "
             "process-global math/rand seeded with 2 values (deterministic detection of a dependence on it) and %d repetitions in fresh processes; scripted map worlds: the CLI builds repeated with a garble binary whose runtime draws every map seed / iteration offset from a replayable sequence (world 1..N), binaries must be equal across worlds; distinct_nontrivial = binary pairs compared" % (len(configs), REPEAT),
     "samples": [{"config": c[0], "flags": c[1]} for c in configs] + [{"ctrlflow_setting": k, "params": v} for k, v in list(SETTINGS.items())[:2]],
-    "cli_builds": builds, "map_world_builds": world_builds, "map_worlds": len(WORLDS), "distinct_baseline_binaries": len(hashes), "unit_seam_runs": unit_runs,
+    "ctrlflow_cli_comparisons": cf_cli, "cli_builds": builds, "map_world_builds": world_builds, "map_worlds": len(WORLDS), "distinct_baseline_binaries": len(hashes), "unit_seam_runs": unit_runs,
 }, assumptions=["the standard library is warm in every build of the grid (the fully cold case is covered by the base-cache construction itself)", "map iteration orders are sampled, not enumerated (no order-controlling instrumentation was built)"], exhaustive=False)
